@@ -279,14 +279,14 @@ CHECKS = {
             "params": {"quick": {"STEPS": 2}, "thorough": {"STEPS": 3}},
             "max_paths": {"quick": 60000, "thorough": 600000},
             "timeout": {"quick": "10m", "thorough": "60m"},
-            "covers": {"VerifC01Docs": ["converged", "partial-load"]},
+            "covers": {"VerifC01Docs": ["converged", "partial-load", "put-batch"]},
         }],
         "assumptions": [
             "two writers (real stores built by InitBaseStore over a shared block store) produce a history of STEPS steps, each a local write with symbolic key/value or a real head exchange (Sync -> replicator -> ipfs-log fetcher -> Join) in either direction, in any order; then both exchange heads and a fresh replica receives everything by one of five routes: manual sync in one batch, load from the writer's disk (cache heads + blocks, real Load), a snapshot saved by the writer (real SaveSnapshot / LoadFromSnapshot), the two writers' branches in separate batches followed by a restart from its own disk, or a PARTIAL load from disk (Load with a limit k, k any value below the log length) completed by the heads a lagging peer would announce (entries below the loaded window, so the log's heads do not move)",
             "the real ipfs-log Append/Join/traverse/sorting run in the interpreter; IPFS is a content-addressed block store stub with perfect hashing; identities use perfect symbolic signatures",
             "oracle: identical ordered hash lists and identical views on all three replicas; the view equals the replay of the replica's own log",
             "distinct entries never share (Lamport time, writer key): holds by construction (each identity writes through one live store)",
-            "document store: the same shape with Put / PutAll (two documents) / Delete over symbolic keys drawn from a two-key alphabet, so overwrites, deletes of present and absent keys and PUTALL batches that contain a key twice all occur; the view must equal the replay of the replica's own log after every step",
+            "document store: the same shape with Put / PutAll (two documents) / PutBatch (two documents) / Delete over symbolic keys drawn from a two-key alphabet, so overwrites, deletes of present and absent keys and PUTALL batches that contain a key twice all occur; the view must equal the replay of the replica's own log after every step",
         ],
         "outside": ["more than two writers / longer histories", "Go map iteration orders other than insertion order", "byte-level JSON/CBOR"],
     },
